@@ -227,7 +227,8 @@ def run_case(case):
             j = int(np.argmax(np.abs(obs["state"] - state)))
             bad.append({"what": "initial state differs from the physical description", "rendering": k, "entry": j,
                         "got": float(obs["state"][j]), "expected": float(state[j]), "info": info, **ctx})
-        if not np.array_equal(obs["chemostats"], np.array(chst, dtype=float)):
+        # (a flag is "int or bool": any non-zero value flags the entry; the renderers write 1, 2, 3, 5 or 127)
+        if not np.array_equal(np.array(obs["chemostats"]) != 0, np.array(chst) != 0):
             bad.append({"what": "chemostat map differs from the physical description", "rendering": k, "info": info, **ctx})
         if "dstatedt" in obs:
             cnt("dstatedt_checks")
